@@ -44,7 +44,7 @@ GENERIC = ["control_on", "control_off", "control_timer", "set_auto_shutdown", "s
 ALL_OPS = list(STATE_QUERIES) + GENERIC + ["get_schedules"]
 QV = [0x00, 0x01, 0x02, 0x05, 0x0a, 0x0f, 0x10, 0x30, 0x39, 0x41, 0x66, 0x7f, 0x80, 0xc3, 0xfe, 0xff]
 FILLS = [0x00, 0xff, 0x30, 0x80]
-REDUCED = [("eof",), ("prefix", 1), ("prefix", 11), ("prefix", 12), ("half",), ("fill", 64, 0xff), ("fill", 107, 0x00), ("long",)]
+REDUCED = [("eof",), ("prefix", 1), ("prefix", 11), ("prefix", 12), ("half",), ("fill", 64, 0xff), ("fill", 107, 0x00), ("fill", 129, 0x00), ("fill", 300, 0xff), ("fill", 1024, 0x30), ("long",)]
 
 
 def valid_replies(op):
